@@ -1,15 +1,16 @@
 SPECIFICATION Spec
 CONSTANTS
   MaxRecs = 2
-  Strs = {1, 2, 3, 4, 5, 6, 7, 8, 9, 10}
+  Strs = {1, 2, 3, 4, 5, 6, 7, 8, 9, 10, 11, 12, 13, 14, 15}
   HdrStrs = {4, 9}
   CutStrs = {3}
   CutRecs = 2
   PreKinds = {"none", "base"}
   Layouts = {"gaps", "canon"}
+  LongStrs = {11, 12, 13, 14, 15}
   MultiPre = {"none", "base"}
   MultiLayouts = {"gaps"}
-  MultiStrs = {1, 2, 3, 4, 5, 6, 7, 8, 9, 10}
+  MultiStrs = {1, 2, 3, 4, 5, 6, 7, 8, 9, 10, 11, 12, 13, 14, 15}
 INVARIANT GeneratedWellFormed
 INVARIANT ReadInvertsWrite
 INVARIANT CanonIdentity
